@@ -393,16 +393,18 @@ Definition plain_view (status : N) (body : str) : client_view := mkView status b
 
 (** Non-streaming response: [WriteHeader s] followed by any writes/flushes. *)
 Lemma resp_mw_buffered_spec maxm maxb s ops :
+  is_informational s = false ->
   Forall body_op ops ->
   let body := concat (hop_chunks ops) in
   client_view_of (fst (resp_mw maxm maxb (HWriteHeader s false :: ops))) =
     (if body_too_large maxb body then plain_view 500 err500_body else plain_view s body) /\
   spill_live (snd (resp_mw maxm maxb (HWriteHeader s false :: ops))) = false.
 Proof.
-  intros Hall body. unfold resp_mw.
+  intros Hinf Hall body. unfold resp_mw.
   set (w0 := mkRw (new_buf maxb maxm) s true false false []).
-  change (fold_left rw_step (HWriteHeader s false :: ops) (new_rw maxm maxb))
-    with (fold_left rw_step ops w0).
+  assert (E0 : fold_left rw_step (HWriteHeader s false :: ops) (new_rw maxm maxb) = fold_left rw_step ops w0).
+  { cbn [fold_left rw_step]. rewrite Hinf. reflexivity. }
+  rewrite E0. clear E0.
   pose proof (fold_body_buffered ops w0 Hall eq_refl) as H. cbn in H.
   destruct H as (Hbuf & Hst & Hhw & Hhj & Hbp & Hout).
   set (w' := fold_left rw_step ops w0) in *.
@@ -419,7 +421,7 @@ Proof.
     cbn [app] in Hwf. fold body in Hwf.
     pose proof (wf_send _ _ Hwf) as [Hs Hc].
     destruct (send b') as [b1 data]. cbn in Hs, Hc. subst data.
-    destruct body as [|c body']; cbn; (split; [reflexivity|exact Hc]).
+    destruct body as [|c body']; cbn; rewrite Hinf; cbn; (split; [reflexivity|exact Hc]).
 Qed.
 
 (** Event stream: everything after the header passes straight through, in
@@ -447,12 +449,13 @@ Proof.
 Qed.
 
 Lemma resp_mw_stream_spec maxm maxb s ops :
+  is_informational s = false ->
   Forall body_op ops ->
   fst (resp_mw maxm maxb (HWriteHeader s true :: ops)) =
     CWriteHeader s :: flat_map passthrough ops ++ [CWriteHeader s] /\
   spill_live (snd (resp_mw maxm maxb (HWriteHeader s true :: ops))) = false.
 Proof.
-  intros Hall. unfold resp_mw. cbn [fold_left rw_step new_rw rheader_written].
+  intros Hs Hall. unfold resp_mw. cbn [fold_left rw_step new_rw rheader_written]. rewrite Hs.
   cbn [rw_send rbuf new_buf overflowed rhijacked fst send drained rout rstatus rbypass].
   match goal with |- context [fold_left rw_step ops ?w1] =>
     pose proof (fold_body_bypass ops w1 Hall eq_refl) as H; set (w' := fold_left rw_step ops w1) in * end.
